@@ -433,6 +433,9 @@ class Gen:
             return self.mapping(avail, envs, lambda a, e, c2: self.atomic_sub(a, e, c2[0], depth + 1), chs=(ch,))
         if c < 0.4:
             return self.arith(avail, self.atomic_sub(avail, envs, ch, depth + 1), (ch,))
+        if c < 0.44:
+            # ParallelChannelPT around an atomic template is atomic (it overwrites the part's own channel)
+            return {'k': 'par', 'inner': self.atomic_sub(avail, envs, ch, depth + 1), 'ow': [[ch, self.expr(sorted(avail))]]}
         return {'k': 'aat', 'lhs': self.atomic_sub(avail, envs, ch, depth + 1),
                 'rhs': self.atomic_sub(avail, envs, ch, depth + 1), 'op': r.choice('+-'),
                 'ms': self.windows(sorted(avail))}
@@ -1540,11 +1543,61 @@ def directed_atom_cases():
     return cases
 
 
+def directed_par_atomic_cases(full):
+    """D9 (round 4, after /repo bae1029): ParallelChannelPT below an atomic composite (AtomicMultiChannelPT,
+    ArithmeticAtomicPT; also below an eagerly evaluated MappingPT): the overwriting values are needed iff the inner
+    waveform exists and their channel is kept"""
+    cases = []
+    ref = {'p0': F(1), 'p1': F(2), 'p2': F(3), 'p3': F(1)}
+    for ti, tk in enumerate(D_ATOMIC_TARGETS):
+        def par(ow, x='p0'):
+            t = d_target(tk, x, 'A')
+            if 'ms' in find_tag(t, 'T'):
+                find_tag(t, 'T')['ms'] = [[C(0), V('p3')]]       # a name that only the window of the inner template reads
+            return {'k': 'par', 'inner': t, 'ow': ow}
+        zero = par([['A', V('p1')]])
+        zt = find_tag(zero, 'T')
+        trees = [
+            ('amc', {'k': 'amc', 'subs': [par([['A', V('p1')]]), _const(V('p2'), 'B')], 'cs': [], 'ms': []}),
+            ('amc_map', {'k': 'amc', 'cs': [], 'ms': [], 'subs': [
+                {'k': 'map', 'inner': par([['A', ['+', V('p1'), V('p0')]]]), 'cs': [],
+                 'm': {'p0': ['+', V('p0'), C(1)], 'p1': ['*', V('p2'), C(2)]}}, _const(V('p2'), 'B')]}),
+            ('aat', {'k': 'aat', 'lhs': par([['A', V('p1')]]), 'rhs': _const(V('p2'), 'A'), 'op': '+', 'ms': [[C(0), V('p2')]]}),
+            ('aat_addB', {'k': 'aat', 'lhs': par([['B', V('p1')]]),
+                          'rhs': {'k': 'const', 'ch': ['A', 'B'], 'reads': [V('p2'), C(1)], 'dur': C(2), 'cs': [], 'ms': []},
+                          'op': '-', 'ms': []}),
+            ('nested', {'k': 'amc', 'subs': [{'k': 'par', 'inner': par([['A', V('p1')]]), 'ow': [['A', V('p2')]]},
+                                            _const(C(1), 'B')], 'cs': [], 'ms': []}),
+            ('in_loop', {'k': 'for', 'idx': 'i1', 'a': C(0), 'b': C(2), 'st': C(1), 'cs': [], 'ms': [],
+                         'body': {'k': 'amc', 'subs': [par([['A', ['+', V('p1'), V('i1')]]], x='i1'), _const(V('p2'), 'B')],
+                                  'cs': [], 'ms': []}}),
+        ]
+        for j, (name, tree) in enumerate(trees):
+            if not (sympy_ok(strip_tags(tree)) and constructible(strip_tags(tree))):
+                continue
+            tag = 'D9:%s:%s' % (name, tk)
+            cases.append(d_case(tree, ref, tag + ':exact'))
+            for rm in (range(4) if full else [(ti + j) % 4, 3]):
+                cases.append(d_case(tree, ref, tag + ':removed%d' % rm, kind='removed', rm=rm))
+            for drop in ([['A'], ['B'], ['A', 'B']] if full else [[['A'], ['B']][(ti + j) % 2]]):
+                cases.append(d_case(tree, ref, tag + ':drop' + ''.join(drop), drop=drop))
+                cases.append(d_case(tree, ref, tag + ':drop%s:removed' % ''.join(drop), kind='removed', rm=(ti + j + 1) % 3,
+                                    drop=drop))
+            t2 = copy.deepcopy(tree)
+            node = find_tag(t2, 'T')
+            if 'cs' in node and node['k'] != 'const' and name != 'in_loop':
+                xx = 'p0'
+                node['cs'] = [{'op': '>', 'l': V(xx), 'r': C(1)}]     # true only where p0 was mapped to p0 + 1
+                cases.append(d_case(t2, ref, tag + ':constraint'))
+    return cases
+
+
 def directed_cases(tier):
     full = tier == 'thorough'
     return (directed_mapping_cases(full) + directed_loop_cases() + directed_extra_cases()
             + directed_channel_cases() + directed_frame_cases(full) + directed_history_cases(full)
-            + directed_hash_loop_cases(full) + directed_alias_cases(full) + directed_atom_cases())
+            + directed_hash_loop_cases(full) + directed_alias_cases(full) + directed_atom_cases()
+            + directed_par_atomic_cases(full))
 
 
 def gen_cases(rng, tier, ctx, every_constraint=False):
@@ -1945,6 +1998,8 @@ def histogram_keys(case, obs):
     d = drop_list(case)
     keys.append('drop:' + ('none' if not d else 'all' if len(d) == 2 else 'partial'))
     keys.append('nodes:%d' % min(len(ns), 12))
+    if any(n['k'] in ('amc', 'aat') and any(q['k'] == 'par' or (q['k'] == 'map' and q['inner']['k'] == 'par') for q in children(n)) for n in ns):
+        keys.append('par_below_atomic_composite')
     if any(n.get('oid') is not None for n in ns):
         keys.append('aliased_object')
     if any(n.get('tup') for n in ns):
